@@ -25,7 +25,7 @@ SAFE = sorted(pm.SAFE)
 
 
 def option_sets(tier):
-    d = 1 if tier == 'quick' else 2
+    d = 2 if tier == 'thorough' else 1
     sets = pm.dev(pm.DEFAULT_ON, SAFE, d) + pm.dev(pm.ALL_OFF, SAFE, d)
     return pm.uniq(sets)
 
@@ -38,7 +38,8 @@ def bound(tier):
 def tasks(tier):
     t = [('scope', tier, i, NPARTS) for i in range(NPARTS)]
     t += [('feat', tier, i, 16) for i in range(16)]
-    return t
+    from mc import subtask
+    return t + subtask.interp_tasks(tier)
 
 
 def check_program(desc, src, sets, res, compare_ns=True):
@@ -110,6 +111,9 @@ def violation_for(src, on, ref, seen_out=None, compare_ns=True):
 def run_task(task):
     res = core.Result()
     kind = task[0]
+    if kind == 'interp':
+        from mc import subtask
+        return subtask.run_interp_task(__name__, task, res)
     if kind == 'scope':
         _, tier, part, nparts = task
         sets = option_sets(tier)
@@ -133,6 +137,9 @@ def run_task(task):
 
 
 def replay(case):
+    if 'interpreter' in case:
+        from mc import subtask
+        return subtask.replay_under(__name__, case)
     src = case['source']
     code = scope_engine.try_compile(src)
     if code is None:
